@@ -149,6 +149,17 @@ class DataPath:
             "type": "dtype",
             "len": "length",
         }
+        DATUM_TYPE_MULTI_TYPE_NAMES = (
+            "dtype",
+            "length",
+            "map_keys",
+            "map_values",
+            "first",
+            "last",
+            "single",
+            "all",
+            "any",
+        )
 
         if not isinstance(spec, dict) or not spec:
             raise MalformedDataPathSpec(general_msg)
@@ -184,6 +195,10 @@ class DataPath:
 
         for i in spec_key_split[1:]:
             i = DATUM_TYPE_MULTI_TYPE_LOOKUP.get(i, i)
+            if i not in DATUM_TYPE_MULTI_TYPE_NAMES:
+                raise MalformedDataPathSpec(
+                    f"{i} if not a known DataPath DATUM_TYPE or MULTI_TYPE. {general_msg}"
+                )
             try:
                 obj = getattr(obj, i)()
             except AttributeError:
